@@ -378,3 +378,62 @@ def e2_subsequence3(ctx):
     funcs=[F2 + ':select__subsequence', 'elementpath/helpers.py:round_number'])
 def e2_subsequence2(ctx):
     return _subsequence_e2(2)
+
+
+# --- added after round-2 seeded changes: mixed numeric carriers in value-based sequence functions; shadowing quantifiers -----------
+
+from decimal import Decimal  # noqa: E402
+T.update(parse_all({'dv_mixed': 'distinct-values(($a, $b, $c))', 'io_mixed': 'index-of(($a, $b, $c), $a)', 'mm_mixed': '(max(($a, $b, $c)) ge min(($a, $b, $c)), count(distinct-values(($a, $b, $c))) = count(distinct-values(($c, $b, $a))))',
+                    'shadow_some': 'for $x in $S return ((some $x in ($k, $k + 1) satisfies $x gt $k), $x)',
+                    'shadow_every': 'let $x := $k return ((every $x in $S satisfies $x ge $x), $x, (some $x in $S satisfies $x lt $k), $x)'}))
+
+
+def _carrier(k, t):
+    return k if t == 0 else (Decimal(k) if t == 1 else float(k))
+
+
+@ob(budget=60, tbudget=600, kind='hunt', bound='three values k in [-2, 2], each as xs:integer, xs:decimal or xs:double (carrier chosen by the solver): distinct-values keeps the first of eq-equal items, index-of finds all eq-equal items (Decimal/double: bug-hunting)',
+    funcs=[F2 + ':select__distinct_values', F2 + ':index-of'])
+def distinct_values_mixed_numeric(ka: int, kb: int, kc: int, ta: int, tb: int, tc: int) -> bool:
+    """
+    pre: all(-2 <= k <= 2 for k in (ka, kb, kc)) and all(0 <= t <= 2 for t in (ta, tb, tc))
+    post: _
+    """
+    ks = [ka, kb, kc]
+    vals = [_carrier(ka, ta), _carrier(kb, tb), _carrier(kc, tc)]
+    want = []
+    for k in ks:
+        if k not in want:
+            want.append(k)
+    r = ev(T['dv_mixed'], a=vals[0], b=vals[1], c=vals[2])
+    return [int(x) for x in r] == want and ev(T['io_mixed'], a=vals[0], b=vals[1], c=vals[2]) == [i + 1 for i, k in enumerate(ks) if k == ka] \
+        and ev(T['mm_mixed'], a=vals[0], b=vals[1], c=vals[2]) == [True, True]
+
+
+_DV = '''
+@ob(budget=45, tbudget=400, kind='hunt', family='distinct-mixed', bound='distinct-values / index-of over ({ca}, {cb}) with integer values in [-2, 2] (Decimal/double: not exhaustible, bug-hunting)', funcs=[F2 + ':select__distinct_values'])
+def distinct_values_{name}(ka: int, kb: int) -> bool:
+    """
+    pre: -2 <= ka <= 2 and -2 <= kb <= 2
+    post: _
+    """
+    a, b = _carrier(ka, {ta}), _carrier(kb, {tb})
+    r = ev(T['dv2'], a=a, b=b)
+    return [int(x) for x in r] == ([ka] if ka == kb else [ka, kb]) and ev(T['io2'], a=a, b=b) == ([1, 2] if ka == kb else [2])
+'''
+T.update(parse_all({'dv2': 'distinct-values(($a, $b))', 'io2': 'index-of(($a, $b), $b)'}))
+for _n, (_ta, _tb, _ca, _cb) in {'int_dec': (0, 1, 'xs:integer', 'xs:decimal'), 'int_dbl': (0, 2, 'xs:integer', 'xs:double'), 'dec_int': (1, 0, 'xs:decimal', 'xs:integer'),
+                                 'dbl_int': (2, 0, 'xs:double', 'xs:integer'), 'dec_dbl': (1, 2, 'xs:decimal', 'xs:double'), 'dbl_dec': (2, 1, 'xs:double', 'xs:decimal')}.items():
+    define(_DV.format(name=_n, ta=_ta, tb=_tb, ca=_ca, cb=_cb), globals())
+
+
+@ob(budget=120, bound='S: 0..3 unbounded ints, k unbounded: a quantifier re-using the name of an enclosing for/let variable does not change it',
+    funcs=['elementpath/xpath2/_xpath2_operators.py:evaluate__quantified_expressions'])
+def quantifier_shadowing(s0: int, s1: int, s2: int, n: int, k: int) -> bool:
+    """
+    pre: 0 <= n <= 3
+    post: _
+    """
+    S = _S(s0, s1, s2, n)
+    return ev(T['shadow_some'], S=S, k=k) == [x for v in S for x in (True, v)] \
+        and ev(T['shadow_every'], S=S, k=k) == [True, k, any(v < k for v in S), k]
